@@ -23,6 +23,16 @@ from .model import ClassInfo, FuncInfo, ModuleRef, ExternalRef, ValueRef, walk_f
 PROTOCOL_NAMES = {'start', 'read', 'check_interrupts_paragraph', 'find'}
 
 
+def _all_params(fi):
+    a = fi.node.args
+    names = [x.arg for x in a.posonlyargs + a.args + a.kwonlyargs]
+    if a.vararg:
+        names.append(a.vararg.arg)
+    if a.kwarg:
+        names.append(a.kwarg.arg)
+    return names
+
+
 class Site:
     def __init__(self, caller, node, callees, how):
         self.caller = caller
@@ -38,6 +48,8 @@ class CallGraph:
         self.edges = {}          # caller qualname -> set of callee qualnames
         self.sites = []          # Site
         self.constructs = {}     # caller qualname -> set of ClassInfo constructed
+        self.ctor_sites = {}     # class qualname -> [(caller, Call node)] of calls resolved to a construction of the class
+        self._cur_call = None
         self.by_name = {}
         for fi in model.functions.values():
             if fi.parent is None and fi.kind != 'setter':
@@ -58,8 +70,10 @@ class CallGraph:
         self.type_constants = self._type_constants()
         self.unresolved = 0
         self.resolved = 0
+        self._deferred = []
         for fi in list(model.functions.values()):
             self._scan(fi)
+        self._resolve_deferred()
 
     # ------------------------------------------------------------------
 
@@ -101,6 +115,8 @@ class CallGraph:
 
     def ctor_edges(self, caller, cls):
         self.constructs.setdefault(caller.qualname, set()).add(cls)
+        if getattr(self, '_cur_call', None) is not None:
+            self.ctor_sites.setdefault(cls.qualname, []).append((caller, self._cur_call))
         out = []
         for name in ('__new__', '__init__'):
             hit = cls.lookup(name)
@@ -171,7 +187,9 @@ class CallGraph:
         for n in walk_function(fi.node):
             if isinstance(n, ast.Call):
                 call_funcs.add(id(n.func))
+                self._cur_call = n
                 callees, how = self.resolve_call(fi, n, locals_, recv)
+                self._cur_call = None
                 if callees is None:
                     self.unresolved += 1
                     callees = []
@@ -244,6 +262,13 @@ class CallGraph:
                 return [], 'super()'
             tgt = self.resolve_static(fi, f, locals_)
             if f.id in locals_ and tgt is None:
+                bound = self._local_callable(fi, f.id, locals_)
+                if bound is not None:
+                    return bound, 'local-callable'
+                if f.id in _all_params(fi) or any(f.id in _all_params(p) for p in self._parents(fi)):
+                    # a callable received as an argument: resolved from what the callers pass, once all are known
+                    self._deferred.append((fi, call, f.id))
+                    return [], 'callable-parameter'
                 return self.dynamic_ctor(fi), 'dynamic-value'
             return self._from_target(fi, tgt, f.id)
         if isinstance(f, ast.Attribute):
@@ -267,13 +292,17 @@ class CallGraph:
             if isinstance(v, ast.Name) and v.id == recv and recv is not None:
                 out = []
                 found_attr = False
+                found_class = False
                 for c in self.classes_for_self(fi):
                     hit = c.lookup(f.attr)
                     if hit is not None and hit[0] == 'method' and hit[1] not in out:
                         out.append(hit[1])
+                    elif hit is not None and hit[0] == 'class':
+                        out.extend(m for m in self.ctor_edges(fi, hit[1]) if m not in out)     # cls.Inner(...)
+                        found_class = True
                     elif hit is not None:
                         found_attr = True
-                if out:
+                if out or (found_class and not found_attr):
                     return out, 'self'
                 if found_attr:
                     # calling a class-level value (e.g. cls.pattern.match is handled below; cls.x() rare)
@@ -304,6 +333,119 @@ class CallGraph:
                          or any(c.cls in r.mro() for r in self.registered)]
             return cands, 'by-name'
         return self.dynamic_ctor(fi), 'dynamic-expr'
+
+    def _parents(self, fi):
+        out = []
+        p = fi.parent
+        while p is not None:
+            out.append(p)
+            p = p.parent
+        return out
+
+    def _callable_expr(self, fi, e, locals_, depth=0):
+        """Functions an expression used as a callable value may stand for: a function / class reference, a nested
+        def, a lambda (its calls are attributed to the function it is written in), functools.partial(f, ...).
+        None if it cannot be told."""
+        if isinstance(e, ast.Lambda):
+            return []
+        if isinstance(e, ast.Call):
+            try:
+                head = self.resolve_static(fi, e.func, locals_)
+            except Exception:
+                head = None
+            if isinstance(head, ExternalRef) and head.dotted == 'functools.partial' and e.args:
+                return self._callable_expr(fi, e.args[0], locals_, depth + 1)
+            return None
+        if isinstance(e, (ast.Name, ast.Attribute)):
+            if isinstance(e, ast.Name) and e.id in locals_ and depth < 3:
+                inner = self._local_callable(fi, e.id, locals_, depth + 1)
+                if inner is not None:
+                    return inner
+            try:
+                tgt = self.resolve_static(fi, e, locals_)
+            except Exception:
+                tgt = None
+            if isinstance(tgt, FuncInfo):
+                return [tgt]
+            if isinstance(tgt, ClassInfo):
+                return self.ctor_edges(fi, tgt)
+            if isinstance(e, ast.Attribute) and isinstance(e.value, ast.Name) and fi.cls is not None:
+                out = []
+                for c in self.classes_for_self(fi):
+                    hit = c.lookup(e.attr)
+                    if hit is not None and hit[0] == 'method' and hit[1] not in out:
+                        out.append(hit[1])
+                if out:
+                    return out
+        return None
+
+    def _local_callable(self, fi, name, locals_, depth=0):
+        """A local name that is only ever bound to callables that can be told (see _callable_expr)."""
+        vals = []
+        for n in walk_function(fi.node):
+            if isinstance(n, ast.Assign) and any(isinstance(t, ast.Name) and t.id == name for t in n.targets):
+                vals.append(n.value)
+            elif isinstance(n, (ast.AugAssign, ast.For, ast.comprehension, ast.With, ast.NamedExpr)):
+                tgt = getattr(n, 'target', None)
+                if tgt is not None and any(isinstance(x, ast.Name) and x.id == name for x in ast.walk(tgt)):
+                    return None
+            elif isinstance(n, ast.Tuple) and isinstance(getattr(n, 'ctx', None), ast.Store) \
+                    and any(isinstance(x, ast.Name) and x.id == name for x in n.elts):
+                return None
+        if not vals or name in _all_params(fi):
+            return None
+        out = []
+        for v in vals:
+            r = self._callable_expr(fi, v, locals_, depth)
+            if r is None:
+                return None
+            out.extend(x for x in r if x not in out)
+        return out
+
+    def _resolve_deferred(self):
+        """Calls of a parameter: the callees are what every call site of the function passes in that position."""
+        for fi, call, pname in self._deferred:
+            owner = fi
+            while pname not in _all_params(owner) and owner.parent is not None:
+                owner = owner.parent
+            params = owner.params()
+            pos = params.index(pname) if pname in params else -1
+            if pos >= 0 and owner.cls is not None and owner.kind in ('method', 'classmethod') and owner.parent is None:
+                pos -= 1
+            resolved, unknown = [], False
+            sites = [s_ for s_ in self.sites if owner in s_.callees]
+            if not sites:
+                unknown = True
+            for s_ in sites:
+                arg = None
+                for k in s_.node.keywords:
+                    if k.arg == pname:
+                        arg = k.value
+                if arg is None and 0 <= pos < len(s_.node.args) and not any(isinstance(a, ast.Starred) for a in s_.node.args):
+                    arg = s_.node.args[pos]
+                if arg is None:
+                    d = owner.node.args
+                    names = [a.arg for a in d.posonlyargs + d.args]
+                    if pname in names and names.index(pname) >= len(names) - len(d.defaults):
+                        arg = d.defaults[names.index(pname) - (len(names) - len(d.defaults))]
+                    elif pname in [a.arg for a in d.kwonlyargs]:
+                        arg = d.kw_defaults[[a.arg for a in d.kwonlyargs].index(pname)]
+                if arg is None or (isinstance(arg, ast.Constant) and arg.value is None):
+                    if arg is None:
+                        unknown = True
+                    continue
+                r = self._callable_expr(s_.caller, arg, self._locals(s_.caller))
+                if r is None:
+                    unknown = True
+                else:
+                    resolved.extend(x for x in r if x not in resolved)
+            callees = resolved if not unknown else resolved + [c for c in self.dynamic_ctor(fi) if c not in resolved]
+            for s_ in self.sites:
+                if s_.node is call:
+                    s_.callees = callees
+                    s_.how = 'callable-parameter' if not unknown else 'callable-parameter+dynamic'
+            for c in callees:
+                self.add(fi, c)
 
     def _param_may_be_called(self, callee, pos):
         """Can the callee instantiate/call the value it receives in positional slot `pos`?  Yes if that
